@@ -41,7 +41,7 @@ def groups(tier, seed):
         for cfg in (["small", "scalar_small"] if q else ["small", "scalar_small", "mid"]):
             gs.append(_clone(g, cfg))
     # thread-safe build (no block cache, no header cache), sequentially
-    nc = [g for g in C14.groups(tier, seed) if any(x in g.gid for x in ("A.init.CMAX130", "A.window_free.CMAX130", "A.fini"))]
+    nc = [g for g in C14.groups(tier, seed) if not g.canary and any(x in g.gid for x in ("A.init.CMAX130", "A.window_free.CMAX130", "A.fini"))]
     nc += [g for g in C08.move_groups(tier) if g.gid.startswith("K.mzd_transpose.17x65.null") or g.gid.startswith("K.mzd_copy.3x70.null")]
     for g in nc:
         gs.append(_clone(g, "nocache"))
@@ -52,6 +52,8 @@ def groups(tier, seed):
         for k in (0, 1, 3, 9):
             c = _clone(g, "host", {"KPAR": k, "KMAXBUILD": 8 if k in (0, 9) else max(k, 2)}, "k%d" % k)
             c.timeout = 1500
+            if k in (0, 9):   # the code book for k = 8 is built by the real m4ri_build_code: 256-iteration loops
+                c.unwindset = dict(c.unwindset, **{"m4ri_build_code.0": 258, "m4ri_build_code.1": 10, "m4ri_build_code.2": 258})
             gs.append(c)
         gs.append(_clone(g, "scalar"))
     mu = [g for g in C01.mul_groups(tier) if g.gid.startswith("B.mzd_mul.3x30x20.null")]
